@@ -48,6 +48,8 @@ struct Dir {
     bool writer_failed = false, writer_done = false, writer_shut = false;
     uint64_t received = 0; bool reader_done = false, saw_eof = false, reader_failed = false;
     const char* wphase = "not started"; const char* rphase = "not started";
+    bool w_in_call = false, r_in_call = false;     // inside a socket call right now
+    int w_ready_streak = 0, r_ready_streak = 0;    // consecutive 50 ms samples in which the kernel reported the descriptor ready while the call was still blocked
 };
 
 struct H {
@@ -90,9 +92,11 @@ void run_writer(Dir& D, const std::vector<std::vector<long>>& prog, bool shutdow
         uint64_t t0 = photon::now;
         ssize_t ret; int en;
         D.attempted = D.written + n;
+        D.w_ready_streak = 0; D.w_in_call = true;
         if (r[0] == W_SEND) { D.wphase = "send"; ret = D.ws->send(buf.data(), n); en = errno; }
         else if (r[0] == W_WRITE) { D.wphase = "write"; ret = D.ws->write(buf.data(), n); en = errno; }
         else { D.wphase = "writev"; auto iov = split(buf.data(), n, std::max<long>(1, r.at(2)), (uint64_t)r.at(3)); ret = D.ws->writev(iov.data(), (int)iov.size()); en = errno; h.labels.insert("writev"); }
+        D.w_in_call = false;
         h.progress++;
         uint64_t dt = photon::now - t0;
         std::ostringstream op; op << where(D) << ": " << D.wphase << "(" << n << " bytes) at stream offset " << D.written;
@@ -101,7 +105,7 @@ void run_writer(Dir& D, const std::vector<std::vector<long>>& prog, bool shutdow
             if (en == ETIMEDOUT) {
                 if (!D.tmo_us) {
                     // 15 s without progress: the engine's fault only if the kernel says the descriptor is writable
-                    if (ready_now(D.ws, POLLOUT)) h.violation(op.str() + " timed out after 15 s although the descriptor is writable (a readiness event was lost)");
+                    if (D.w_ready_streak >= 20) h.violation(op.str() + " timed out after 15 s although the kernel had reported the descriptor writable for the last " + std::to_string(D.w_ready_streak * 50) + " ms (a readiness event was lost)");
                     else h.kernel_stall = op.str() + " timed out after 15 s and the descriptor is still not writable";
                 } else if (dt + 1000 < D.tmo_us) h.violation(op.str() + " reported ETIMEDOUT after " + std::to_string(dt) + " us, the stream timeout is " + std::to_string(D.tmo_us));
                 h.labels.insert("write_timed_out");
@@ -154,9 +158,11 @@ void run_reader(Dir& D, const std::vector<std::vector<long>>& prog, bool drain) 
           static unsigned char dummy; for (auto& b : bufs) iov.push_back({b.empty() ? (void*)&dummy : (void*)b.data(), b.size()}); }
         uint64_t t0 = photon::now;
         ssize_t ret; int en;
+        D.r_ready_streak = 0; D.r_in_call = true;
         if (r[0] == R_RECV) { D.rphase = "recv"; ret = D.rs->recv(bufs[0].empty() ? (void*)flat.data() : (void*)bufs[0].data(), n); en = errno; }
         else if (r[0] == R_READ) { D.rphase = "read"; ret = D.rs->read(bufs[0].empty() ? (void*)flat.data() : (void*)bufs[0].data(), n); en = errno; }
         else { D.rphase = "readv"; ret = D.rs->readv(iov.data(), (int)iov.size()); en = errno; h.labels.insert("readv"); }
+        D.r_in_call = false;
         h.progress++;
         uint64_t dt = photon::now - t0;
         std::ostringstream opn; opn << where(D) << ": " << D.rphase << "(" << n << " bytes) at stream offset " << D.received;
@@ -164,7 +170,7 @@ void run_reader(Dir& D, const std::vector<std::vector<long>>& prog, bool drain) 
         if (ret < 0) {
             if (en == ETIMEDOUT) {
                 if (!D.tmo_us) {
-                    if (ready_now(D.rs, POLLIN)) h.violation(op + " timed out after 15 s although the descriptor is readable (a readiness event was lost)");
+                    if (D.r_ready_streak >= 20) h.violation(op + " timed out after 15 s although the kernel had reported the descriptor readable for the last " + std::to_string(D.r_ready_streak * 50) + " ms (a readiness event was lost)");
                     else h.kernel_stall = op + " timed out after 15 s and the descriptor is still not readable";
                     D.reader_failed = true; break;
                 }
@@ -266,7 +272,21 @@ Outcome run_case(const Case& c) {
             jh.push_back(thread_enable_join(thread_create11([D, wp, writer_shuts, i, wside, &endpoint_done]() { run_writer(*D, *wp, writer_shuts); endpoint_done(i, wside); })));
             jh.push_back(thread_enable_join(thread_create11([D, rp, reader_drains, i, rside, &endpoint_done]() { run_reader(*D, *rp, reader_drains); endpoint_done(i, rside); })));
         }
+        // monitor: every 50 ms, for each call that is still blocked, ask the kernel whether its descriptor is ready.  A timeout
+        // counts as a lost readiness event only if the descriptor had been ready for at least a second (data that arrives in
+        // the instant in which the timeout fires must not be mistaken for it).
+        bool monitor_stop = false;
+        auto mon = thread_enable_join(thread_create11([&]() {
+            while (!monitor_stop) {
+                for (auto& D : h.dirs) {
+                    if (D.w_in_call && D.ws && ready_now(D.ws, POLLOUT)) D.w_ready_streak++; else D.w_ready_streak = 0;
+                    if (D.r_in_call && D.rs && ready_now(D.rs, POLLIN)) D.r_ready_streak++; else D.r_ready_streak = 0;
+                }
+                thread_usleep(50000);
+            }
+        }));
         for (auto j : jh) thread_join(j);
+        monitor_stop = true; thread_interrupt((thread*)mon, EINTR); thread_join(mon);
         // ---- end-of-case oracle
         for (auto& D : h.dirs) {
             if (D.received > D.attempted) h.violation(where(D) + ": the reader received " + std::to_string(D.received) + " bytes, the writer wrote at most " + std::to_string(D.attempted));
